@@ -200,6 +200,9 @@ type Options struct {
 	ChildResetsExpansion bool
 	// MaxSteps bounds the simulation (0 = 5,000,000).
 	MaxSteps int
+	// MaxWork bounds the total number of stack items recorded in step snapshots
+	// (a loop that grows the stack costs quadratic work); 0 = 50,000,000.
+	MaxWork int
 }
 
 // Step is one executed instruction.
@@ -416,6 +419,8 @@ type machine struct {
 	limit0  int64
 	steps   int
 	max     int
+	work    int
+	maxWork int
 }
 
 type frame struct {
@@ -484,6 +489,9 @@ func Run(ctx *Context, gasLimit int64, opt Options) *Result {
 	if m.max == 0 {
 		m.max = 5000000
 	}
+	if m.maxWork = opt.MaxWork; m.maxWork == 0 {
+		m.maxWork = 50000000
+	}
 	f := &frame{m: m, prog: ctx.Code, limit: gasLimit, faults: map[Class]bool{},
 		reserved: ctx.TxVersion != nil && *ctx.TxVersion == 1}
 	m.frames = []*frame{f}
@@ -526,11 +534,12 @@ func Run(ctx *Context, gasLimit int64, opt Options) *Result {
 func (f *frame) run() bool {
 	m := f.m
 	for uint64(f.pc) < uint64(len(f.prog)) {
-		if m.steps >= m.max {
+		if m.steps >= m.max || m.work > m.maxWork {
 			m.res.Truncated = true
 			return false
 		}
 		m.steps++
+		m.work += len(f.data) + len(f.alt)
 		f.faults = map[Class]bool{}
 		f.snap = nil
 		ins, bad := Parse(f.prog, f.pc)
